@@ -83,6 +83,8 @@ def rand_cfg(det, rng):
         ds = ws + float(rng.choice([0.0, 0.5, 1.0, 2.0]))
         if rng.random() < 0.15:
             ws, ds = ds + 0.5, ws  # thresholds in the other order (accepted): the drift level is then reached first, and drift takes precedence
+        if rng.random() < 0.1:
+            nt = nt + float(rng.choice([0.5, 0.2]))  # "at least n_threshold samples" for a value that is not a whole number
         return (nt, ws, ds)
     if det == "EDDM":
         nt = int(rng.choice([1, 2, 3, 5, 10, 30]))
@@ -90,6 +92,8 @@ def rand_cfg(det, rng):
         dt = wt - float(rng.choice([0.0, 0.05, 0.1, 0.3]))
         if rng.random() < 0.15:
             wt, dt = dt - 0.05, wt
+        if rng.random() < 0.1:
+            nt = nt + 0.5
         return (nt, wt, dt)
     w = int(rng.choice([1, 2, 3, 5, 10, 30]))
     aw = float(rng.choice([0.7, 0.6, 0.5, 0.3, 0.1, 0.05]))
